@@ -82,7 +82,8 @@ let kv_nonzero (m : (BinNums.coq_Z * BinNums.coq_Z) list) =
 
 let adm_digest (s : Peers.st) clock =
   let ids m = join "," (smap string_of_int (sort_ints (smap (fun (k, _) -> iz k) m))) in
-  let b = Stdlib.List.sort compare (smap (fun (h, e) -> (iz h, iz e - clock)) s.Peers.banned) in
+  let b = Stdlib.List.filter (fun (_, l) -> l >= 1)
+      (Stdlib.List.sort compare (smap (fun (h, e) -> (iz h, iz e - clock)) s.Peers.banned)) in
   Printf.sprintf "n%d/I%s/O%s/P%s/H%s/G%s/B%s" (iz (Peers.total s)) (ids s.Peers.inb) (ids s.Peers.outb) (ids s.Peers.pers)
     (kv_nonzero s.Peers.ccount) (kv_nonzero s.Peers.groups)
     (join "," (smap (fun (h, l) -> Printf.sprintf "%d:%d" h l) b))
